@@ -68,7 +68,7 @@ def run_case(case, seed):
         cores0 = lowrank_cores(rng, rows, [1] * d, rk, c, 1)
     elif fam == 'graded':
         J = rk[1]
-        w = [2.0, 1e-17, 1e-3][:J]
+        w = ([2.0, 1e-17, 1e-3] + [0.5, 0.25, 0.125, 0.0625])[:J]
         cores0 = []
         for i in range(d):
             cr = np.zeros((1 if i == 0 else J, rows[i], 1, 1 if i == d - 1 else J), dtype=complex if c else float)
@@ -79,7 +79,7 @@ def run_case(case, seed):
         # sum of J unit tensors with weights (2,2,1): exactly tied singular values in every unfolding, inner cores are
         # partial identities (orthonormal on both sides), the weights sit in the first core
         J = rk[1]
-        w = [2.0, 2.0, 1.0][:J]
+        w = ([2.0, 2.0, 1.0] * 4)[:J]
         cores0 = []
         for i in range(d):
             cr = np.zeros((1 if i == 0 else J, rows[i], 1, 1 if i == d - 1 else J), dtype=complex if c else float)
